@@ -84,6 +84,14 @@ def boom(x):
 
 
 @command
+def evalexc(x):
+    """fails with liquer's own exception type (e.g. a validation command, or .get() of a failed sub-query)"""
+    CALLS.append("evalexc")
+    from liquer.state import EvaluationException
+    raise EvaluationException("evalexc-message")
+
+
+@command
 def setv(state, val: int = 0):
     CALLS.append("setv")
     state.vars["w"] = val
@@ -187,7 +195,7 @@ def mkstate(query, data, error=False, volatile=False, caching=True, vars=None, a
     if error:
         s.metadata["is_error"] = True
         s.metadata["status"] = "error"
-        s.metadata["log"].append(dict(kind="error", message="pred failed", position=None, query=query))
+        s.metadata["log"].append(dict(kind="error", message="pred failed", position=dict(offset=1, line=1, column=2), query=query))
         s.metadata["message"] = "pred failed"
         s.data = None
     return s
